@@ -24,7 +24,7 @@ theorem map_one_eq : ∀ (t : Ty), (∀ o ∈ t, o.name = "1" ∧ o.z = 0) → t
 /-- PRO.upgrade hands back the type it was given (objects read as (name, z)), or refuses. -/
 theorem TyClass.upgrade_pro_keeps {t r : Ty} (h : TyClass.upgrade .pro t = .ok r) (hz : t.Flat) :
     r = t := by
-  simp only [TyClass.upgrade, proUpgrade] at h
+  simp only [TyClass.upgrade, proUpgradeTy] at h
   split at h
   · rename_i hall
     injection h with h
@@ -39,7 +39,7 @@ theorem TyClass.upgrade_pro_keeps {t r : Ty} (h : TyClass.upgrade .pro t = .ok r
 /-- ... and it refuses as soon as one object is not named 1 (a named wire is not PRO's generator). -/
 theorem TyClass.upgrade_pro_refuses {t : Ty} (h : ∃ o ∈ t, o.name ≠ "1") :
     TyClass.upgrade .pro t = .error .type := by
-  simp only [TyClass.upgrade, proUpgrade]
+  simp only [TyClass.upgrade, proUpgradeTy]
   split
   · rename_i hall
     obtain ⟨o, ho, hn⟩ := h
